@@ -232,6 +232,67 @@ theorem C20_hec_residual (y r x : List Rat) (m : Nat) (tol : Rat) (h0 : 0 < r.ge
         pow_sub_pow_le _ _ hn0 hn1 hx0 hx1 m
     _ ≤ m * tol := mul_le_mul_of_nonneg_left hstop (Nat.cast_nonneg m)
 
+/-- CEC, the vector `power_method` RETURNS: it returns `x' = W x / c` (`c = ‖W x‖₂`), one step after the iterate `x` the
+stopping test was applied to. Exactly `W x' − c x' = W (x' − x)`: with `‖x' − x‖₂ ≤ tol` at the stop and `‖W‖₂ = λ_max`
+(symmetric `W`) the returned vector satisfies the eigen-equation up to `λ_max · tol` (and the Rayleigh quotient can only
+make the residual smaller) - the bound the harness demands of every run within the documented budget. -/
+theorem C20_cec_returned (W : List (List Rat)) (c : Rat) (x : List Rat) (hc : c ≠ 0) (hlen : W.length = x.length) :
+    vsub (matVec W (cecStep W c x)) ((cecStep W c x).map (c * ·)) = matVec W (vsub (cecStep W c x) x) := by
+  rw [scale_cecStep W c x hc, matVec_vsub W _ x (by simp [cecStep, matVec, hlen])]
+
+/-- non-vacuity (`c = 1`): `x = (1,2,3)`, `x' = W x = (5,4,3)`, `W x' − x' = (2,4,6) = W (x' − x)` -/
+example : vsub (matVec (cecW 3 [[0, 1, 2]]) (cecStep (cecW 3 [[0, 1, 2]]) 1 [1, 2, 3]))
+      ((cecStep (cecW 3 [[0, 1, 2]]) 1 [1, 2, 3]).map ((1 : Rat) * ·)) = [2, 4, 6] ∧
+    matVec (cecW 3 [[0, 1, 2]]) (vsub (cecStep (cecW 3 [[0, 1, 2]]) 1 [1, 2, 3]) [1, 2, 3]) = [2, 4, 6] := by
+  decide +kernel
+
+/-- `power_method(W, max_iter = K, tol)` as a loop (`nrm` = `np.linalg.norm`): when the run is left by its test
+(`passes < K`), (i) every larger budget `K' ≥ K` returns the same vector after the same number of passes - the default
+`max_iter` does not matter once it suffices; (ii) the returned vector is `W xp / ‖W xp‖` for an iterate `xp` with
+`‖xp − W xp / ‖W xp‖‖ ≤ tol`, i.e. the hypothesis of `C20_cec_residual` / `C20_cec_returned` holds. A run with a smaller
+budget than the documented one is NOT covered: that is what the harness watches with the documented iteration. -/
+theorem C20_power_budget (nrm : List Rat → Rat) (W : List (List Rat)) (K : Nat) (tol : Rat) (x : List Rat)
+    (h : (powerMethod nrm W K tol x).2 < K) :
+    (∀ K', K ≤ K' → powerMethod nrm W K' tol x = powerMethod nrm W K tol x) ∧
+    ∃ xp, (powerMethod nrm W K tol x).1 = cecStep W (nrm (matVec W xp)) xp ∧
+      nrm (vsub xp (cecStep W (nrm (matVec W xp)) xp)) ≤ tol := by
+  refine ⟨fun K' hK => pmLoop_stable _ tol K none x h K' hK, ?_⟩
+  rcases pmLoop_left (pmBody nrm W) tol K none x h with ⟨hno, _⟩ | ⟨xp, h1, h2⟩
+  · simp [pmGoOn] at hno
+  · refine ⟨xp, h1.symm, ?_⟩
+    simp only [pmGoOn, decide_eq_false_iff_not, not_lt] at h2
+    exact h2
+
+/-- non-vacuity: residuals 1/2, 1/4, 1/16 against `tol = 1/8`: three passes with budget 10 (left by the test), two with budget 2 -/
+example : pmLoop (fun (j : Nat) => (j + 1, ([1/2, 1/4, 1/16] : List Rat).getD j 0)) (1/8) 10 none 0 = (3, 3) ∧
+    pmLoop (fun (j : Nat) => (j + 1, ([1/2, 1/4, 1/16] : List Rat).getD j 0)) (1/8) 2 none 0 = (2, 2) := by decide +kernel
+
+/-- the HEC loop (`for iter in range(K): … if ‖x − new_x‖ ≤ tol: break`), generic in the step: when it is left by the
+`break`, every larger budget gives the same result, at most `K` passes were made, and the RETURNED iterate passes the
+stopping test - the hypothesis `hstop` of `C20_hec_residual` / `C20_hec_residual_sharp` (with `‖·‖₂ ≥ |·_j|`). -/
+theorem C20_hec_budget {X : Type} (step : X → X) (dist : X → X → Rat) (tol : Rat) (K : Nat) (x : X)
+    (h : (hecLoop step dist tol K x).2.2 = true) :
+    (∀ K', K ≤ K' → hecLoop step dist tol K' x = hecLoop step dist tol K x) ∧
+    dist (hecLoop step dist tol K x).1 (step (hecLoop step dist tol K x).1) ≤ tol ∧
+    (hecLoop step dist tol K x).2.1 ≤ K :=
+  ⟨fun K' hK => hecLoop_stable step dist tol K x h K' hK, hecLoop_left step dist tol K x h, hecLoop_passes_le step dist tol K x⟩
+
+example : hecLoop (fun (j : Nat) => j + 1) (fun j _ => ([1/2, 1/4, 1/16] : List Rat).getD j 0) (1/8) 10 0 = (2, 3, true) ∧
+    hecLoop (fun (j : Nat) => j + 1) (fun j _ => ([1/2, 1/4, 1/16] : List Rat).getD j 0) (1/8) 2 0 = (2, 2, false) := by decide +kernel
+
+/-- HEC, sharp residual: for entries of `x` and of the next iterate in `[0, M]`,
+`|apply(x)_j − c · x_j ^ m| ≤ c · m · M^(m-1) · |x_new_j − x_j|` (`c = ‖r‖₁ ^ m`). Summing the squares: at a stop with
+`‖x_new − x‖₂ ≤ tol` the eigen-equation holds in the 2-norm up to `c · m · M^(m-1) · tol`, `M` the largest score. -/
+theorem C20_hec_residual_sharp (y r x : List Rat) (m : Nat) (M : Rat) (h0 : 0 < r.getD 0 0)
+    (hroot : ∀ i, (r.getD i 0) ^ m = y.getD i 0) (j : Nat)
+    (hx0 : 0 ≤ x.getD j 0) (hx1 : x.getD j 0 ≤ M)
+    (hn0 : 0 ≤ (hecNormalize r).getD j 0) (hn1 : (hecNormalize r).getD j 0 ≤ M) :
+    |y.getD j 0 - (l1 r) ^ m * (x.getD j 0) ^ m| ≤
+      (l1 r) ^ m * (m * M ^ (m - 1) * |(hecNormalize r).getD j 0 - x.getD j 0|) := by
+  have hS : 0 ≤ (l1 r) ^ m := pow_nonneg (l1_nonneg r) m
+  rw [hec_step_identity y r m h0 hroot j, ← mul_sub, abs_mul, abs_of_nonneg hS]
+  exact mul_le_mul_of_nonneg_left (pow_sub_pow_le_of_le _ _ M hn0 hn1 hx0 hx1 m) hS
+
 /-- Relabelling the nodes `0..n-1` by an injective `σ` (a permutation): `apply` and the matrix `W` are carried
 along entrywise, hence so is every iterate of both power iterations when the random start is carried along. -/
 theorem C20_eigen_relabel (n : Nat) (edges : List (List Nat)) (x x' : List Rat) (σ : Nat → Nat)
